@@ -709,6 +709,23 @@ func fetchAdvance(info *types.Info, vm *eng.VMModel) (int64, string) {
 
 // fetchInfo: the advance and, per saved copy of ip (field or variable text), its offset from the
 // opcode's position.
+// savedKey names a place independently of what the receiver variable is called: a field of
+// a struct is "<Type>.<field>".
+func savedKey(info *types.Info, e ast.Expr) string {
+	if sel, ok := eng.Unparen(e).(*ast.SelectorExpr); ok {
+		if s := info.Selections[sel]; s != nil && s.Kind() == types.FieldVal {
+			t := s.Recv()
+			if pt, ok := t.(*types.Pointer); ok {
+				t = pt.Elem()
+			}
+			if n, ok := t.(*types.Named); ok {
+				return n.Obj().Name() + "." + sel.Sel.Name
+			}
+		}
+	}
+	return eng.ExprStr(e)
+}
+
 func fetchInfo(info *types.Info, vm *eng.VMModel) (int64, map[string]int64) {
 	adv, saved, _ := fetchInfoFull(info, vm)
 	return adv, saved
@@ -761,7 +778,7 @@ func fetchInfoFull(info *types.Info, vm *eng.VMModel) (int64, map[string]int64, 
 				return -1, nil, "ip assigned at fetch in a form not understood"
 			}
 			if ipIs(s.Rhs[0]) {
-				saved[eng.ExprStr(s.Lhs[0])] = adv
+				saved[savedKey(info, s.Lhs[0])] = adv
 				continue
 			}
 			if id, ok := s.Lhs[0].(*ast.Ident); ok && tagID != nil && objOf(info, id) == info.Uses[tagID] {
@@ -771,7 +788,7 @@ func fetchInfoFull(info *types.Info, vm *eng.VMModel) (int64, map[string]int64, 
 				}
 				if ipIs(ix.Index) {
 					opAt = adv
-				} else if v, ok := saved[eng.ExprStr(ix.Index)]; ok {
+				} else if v, ok := saved[savedKey(info, ix.Index)]; ok {
 					opAt = v
 				} else {
 					return -1, nil, "the opcode is read at an index that is not the instruction pointer"
